@@ -21,6 +21,12 @@ PACKAGES = {
           {'Agua': 'Water', 'EtOH': 'Ethanol'},
           {'Alcohols': (['Methanol', 'Ethanol'], [0.25, 0.75], False),
            'Gases': (['N2', 'CO2'], [0.5, 0.5], False)}),
+    # same chemicals in the same order as A, but other aliases and other group definitions: two packages
+    # that differ only in their name tables must never share a lookup cache
+    'A2': (['Water', 'Ethanol', 'Methanol', 'Glycerol', 'N2', 'CO2', 'Glucose', 'Octane'],
+           {'Humectant': 'Glycerol', 'Fuel': 'Octane'},
+           {'Alcohols': (['Ethanol', 'Glycerol', 'Methanol'], [0.5, 0.25, 0.25], False),
+            'Gases': (['CO2', 'N2'], [0.9, 0.1], True)}),
     'B': (['Octane', 'Methanol', 'Ethanol', 'Water', 'Glucose', 'CO2'],
           {'Aqua': 'Water', 'MeOH': 'Methanol'},
           {'Alcohols': (['Methanol', 'Ethanol'], [0.4, 0.6], False),
@@ -28,7 +34,7 @@ PACKAGES = {
     'C': (['Ethanol', 'Water'], {}, {}),
 }
 # receiver package -> packages whose chemicals it contains
-SUBPACKAGES = {'A': ['A', 'B', 'C'], 'B': ['B', 'C'], 'C': ['C']}
+SUBPACKAGES = {'A': ['A', 'A2', 'B', 'C'], 'A2': ['A2', 'A', 'B', 'C'], 'B': ['B', 'C'], 'C': ['C']}
 
 
 class Package:
